@@ -62,7 +62,7 @@ def gen_config(seed):
                 f['field_date_format'] = fmt
                 if ft == 'FIXED':
                     f['field_length'] = sum(4 if c == 'Y' else 2 for c in isoc.parse_fmt(fmt))
-            if py == 'decimal' and ft == 'FIXED':
+            if py == 'decimal':     # a decimal needs a configured width (also in a variable-length element)
                 f['field_length'] = r.choice((6, 8, 12))
             if py in ('int', 'long') and ft != 'FIXED':
                 f['field_length'] = r.choice((0, 4, 9))
